@@ -198,8 +198,26 @@ func runWake(t *testing.T, tape *Tape, w *World, variant string, steps int, out 
 	}
 	var pendingOps []doneOp
 	usedKey := map[string]bool{}
+	// the first writer's client may go away exactly when its transaction commits: the commit
+	// goes through and must wake the waiters like any other (the notification runs in a commit
+	// hook, under the request's context)
+	voidRun := false
+	cancelAtCommit := func(id string, ctx context.Context, faulted bool) (context.Context, func() bool) {
+		if !faulted {
+			return ctx, func() bool { return false }
+		}
+		before := S.TaskCommit(id)
+		cctx, cancel := context.WithCancel(ctx)
+		S.Arm(FaultCancelAtCommit, 1, cancel)
+		r.Stats["armed_"+FaultCancelAtCommit.String()]++
+		return cctx, func() bool {
+			S.Disarm()
+			return S.TaskCommit(id) != before
+		}
+	}
 	for i := 0; i < nwr; i++ {
 		id := fmt.Sprintf("writer%d", i)
+		faulted := i == 0 && tape.Bool(20)
 		kind := tape.Intn(8)
 		if kind >= 6 {
 			kind = []int{2, 7}[kind-6]
@@ -224,10 +242,14 @@ func runWake(t *testing.T, tape *Tape, w *World, variant string, steps int, out 
 			usedKey[key] = true
 			data := r.genPayload(1000 + i)
 			c.spawn(id, func(ctx context.Context) {
+				ctx, committed := cancelAtCommit(id, ctx, faulted)
 				t0 := time.Now()
 				resp, err := w.Call(ctx, "Publish", &pubsubpb.PublishRequest{Topic: tn, Messages: []*pubsubpb.PubsubMessage{{Data: data, Attributes: attrs, OrderingKey: key}}})
 				t1 := time.Now()
 				r.ev("%s Publish %s key=%q attrs=%v -> %v", id, tn, key, attrs, code(err))
+				if did := committed(); err != nil && did {
+					voidRun = true // committed, but the ids went down with the cancelled request
+				}
 				if err == nil {
 					mt := r.M.LiveTopic(tn)
 					mid, v := oneMessageID(resp)
@@ -260,11 +282,12 @@ func runWake(t *testing.T, tape *Tape, w *World, variant string, steps int, out 
 			}
 			named := r.M.AckIDs[ids[0]].Sub.Name
 			c.spawn(id, func(ctx context.Context) {
+				ctx, committed := cancelAtCommit(id, ctx, faulted)
 				t0 := time.Now()
 				_, err := w.Call(ctx, "ModifyAckDeadline", &pubsubpb.ModifyAckDeadlineRequest{Subscription: named, AckIds: ids, AckDeadlineSeconds: 0})
 				t1 := time.Now()
 				r.ev("%s ModifyAckDeadline(0) %s -> %v", id, r.descIDs(ids), code(err))
-				if err == nil {
+				if did := committed(); err == nil || did {
 					pendingOps = append(pendingOps, doneOp{S.TaskCommit(id), func() *Violation { r.M.ModAck(nil, ids, 0, t0, t1); return nil }})
 				}
 			})
@@ -294,11 +317,12 @@ func runWake(t *testing.T, tape *Tape, w *World, variant string, steps int, out 
 			s := subs[tape.Intn(len(subs))]
 			T := epoch.Add(-time.Hour)
 			c.spawn(id, func(ctx context.Context) {
+				ctx, committed := cancelAtCommit(id, ctx, faulted)
 				t0 := time.Now()
 				_, err := w.Call(ctx, "Seek", &pubsubpb.SeekRequest{Subscription: s.Name, Target: &pubsubpb.SeekRequest_Time{Time: timestamppbNew(T)}})
 				t1 := time.Now()
 				r.ev("%s Seek %s to the past -> %v", id, s.Name, code(err))
-				if err == nil {
+				if did := committed(); err == nil || did {
 					pendingOps = append(pendingOps, doneOp{S.TaskCommit(id), func() *Violation { r.M.SeekTime(s, T, t0, t1); return nil }})
 				}
 			})
@@ -405,6 +429,12 @@ func runWake(t *testing.T, tape *Tape, w *World, variant string, steps int, out 
 		return nil
 	}
 	v, ok := c.run(3000, after)
+	if voidRun {
+		r.Stats["void_commit_without_ids"]++
+		c.finish()
+		r.M.Concurrent = false
+		return
+	}
 	if v != nil {
 		viol0 = v
 	} else if !ok {
